@@ -88,9 +88,18 @@ def run_modules(chk, wd, quick):
         mods.append(('m%d' % i, GM.gen_module(rng, feats)))
     args = GM.ARGS[:4] if quick else GM.ARGS
 
+    asan = ('-O1', '-fsanitize=address', '-fno-omit-frame-pointer')
+
     def work(m):
         tag, text = m
-        return tag, text, one_module(exe, wd, tag, text, args)
+        res = one_module(exe, wd, tag, text, args)
+        if res is None and (not quick or tag.startswith('corpus-') or int(tag[1:]) % 3 == 0):
+            # the same translation under AddressSanitizer: an alloca shorter than asked for, a section smaller than its MIR
+            # layout, a temporary used outside its block show as a crash of the compiled translation
+            res = one_module(exe, wd, tag + '-asan', text, args[:2], cflags=asan)
+            if res is not None:
+                res = (res[0], '[AddressSanitizer build] ' + res[1])
+        return tag, text, res
     nbad = 0
     ninvalid = 0
     seen = set()
@@ -115,7 +124,7 @@ def run_modules(chk, wd, quick):
             if cls in seen or len(seen) >= 6:
                 continue
             seen.add(cls)
-            small = shrink_module(exe, wd, tag, text, args, kind)
+            small = shrink_module(exe, wd, tag, text, args, kind, cflags=asan if 'AddressSanitizer build' in detail else ('-O1',))
             chk.finding('module:%s:%s' % (kind, hashlib.sha1(small.encode()).hexdigest()[:10]),
                         dict(case='module ' + tag, kind=kind, detail=detail, mir=small, original=text, args=['%x,%x' % ab for ab in args]),
                         'the C translation of a generated module is wrong (%s): %s' % (kind, detail[:300]))
@@ -129,7 +138,7 @@ def run_modules(chk, wd, quick):
     return nbad
 
 
-def shrink_module(exe, wd, tag, text, args, kind):
+def shrink_module(exe, wd, tag, text, args, kind, cflags=('-O1',)):
     """drop whole self-contained units (delimited by '# ---' lines) of the entry function while the same
     kind of failure persists and the interpreter still runs the module"""
     lines = text.split('\n')
@@ -141,7 +150,7 @@ def shrink_module(exe, wd, tag, text, args, kind):
 
     def fails(sub):
         t = '\n'.join(head + [l for u in sub for l in u] + tail)
-        r = one_module(exe, wd, tag + '-s', t, args, interp_timeout=10)
+        r = one_module(exe, wd, tag + '-s', t, args, cflags=cflags, interp_timeout=10)
         return r is not None and r[0] == kind
     sub = vlib.shrink_list(units, fails, max_steps=60)
     return '\n'.join(head + [l for u in sub for l in u] + tail)
